@@ -13,6 +13,7 @@ import (
 	"testing"
 	"time"
 
+	mux "github.com/cbeuw/Cloak/internal/multiplex"
 	"github.com/cbeuw/Cloak/internal/server/usermanager"
 	kit "github.com/cbeuw/Cloak/internal/verifkit"
 	log "github.com/sirupsen/logrus"
@@ -147,4 +148,72 @@ func abs64(x int64) int64 {
 		return -x
 	}
 	return x
+}
+
+// TestVerifC16Orphan: usage metered on a session that lives on a record the panel has already forgotten (the lookup gap of
+// known finding D9: a connection resolved its ActiveUser just before the user's last session closed) must still be charged,
+// once, when that session ends.  Sequential calls, the interleaving is fixed by their order.
+func TestVerifC16Orphan(t *testing.T) {
+	log.SetOutput(io.Discard)
+	log.SetLevel(log.PanicLevel)
+	res := kit.NewResult()
+	defer func() { res.Save(true) }()
+	for r := 0; r < 6; r++ {
+		mgr := &c16SumManager{up: map[string]int64{}, down: map[string]int64{}}
+		panel := &userPanel{Manager: mgr, activeUsers: make(map[[16]byte]*ActiveUser),
+			usageUpdateQueue: make(map[[16]byte]*usagePair), uploadInterval: defaultUploadInterval}
+		uid := []byte(fmt.Sprintf("c16-orphan-u%04d", r))
+		var key [32]byte
+		obfs, err := mux.MakeObfuscator(mux.EncryptionMethodPlain, key)
+		if err != nil {
+			t.Fatal(err)
+		}
+		cfg := mux.SessionConfig{Obfuscator: obfs, MsgOnWireSizeLimit: appDataMaxLength}
+		a, err := panel.GetUser(uid) // connection 1 resolves the user ...
+		if err != nil {
+			t.Fatal(err)
+		}
+		if _, _, err := a.GetSession(1, cfg); err != nil {
+			t.Fatal(err)
+		}
+		b, err := panel.GetUser(uid) // connection 2 resolves the same record ...
+		if err != nil {
+			t.Fatal(err)
+		}
+		var up1, dn1 int64 = int64(100 + r), int64(200 + r)
+		a.valve.AddRx(up1)
+		a.valve.AddTx(dn1)
+		if r%2 == 1 { // a round in between collects what session 1 carried
+			panel.updateUsageQueue()
+			_ = panel.commitUpdate()
+		}
+		a.CloseSession(1, "") // ... the user's last session ends: the record is terminated and forgotten
+		if _, _, err := b.GetSession(2, cfg); err != nil { // ... and connection 2 creates its session on that record
+			res.Note("round %d: GetSession on the terminated record refused: %v", r, err)
+			res.Count(fmt.Sprintf("orphan %d refused", r), true)
+			continue
+		}
+		var up2, dn2 int64 = int64(3000 + r), int64(7000 + r)
+		b.valve.AddRx(up2)
+		b.valve.AddTx(dn2)
+		b.CloseSession(2, "")
+		panel.updateUsageQueue()
+		_ = panel.commitUpdate()
+		panel.updateUsageQueue()
+		_ = panel.commitUpdate()
+		mgr.mu.Lock()
+		gu, gd := mgr.up[string(uid)], mgr.down[string(uid)]
+		mgr.mu.Unlock()
+		// the closing notices of the two sessions are metered as download on top (no connection: nothing is sent, nothing metered)
+		for _, c := range []struct {
+			dir       string
+			got, want int64
+		}{{"up", gu, up1 + up2}, {"down", gd, dn1 + dn2}} {
+			if c.got != c.want {
+				res.Violate("exact:"+c.dir+":session-on-forgotten-record", fmt.Sprintf("a session created on a record the panel had just forgotten carried %d bytes (%s) after %d on the user's previous session; at rest the manager was told %d, not %d",
+					map[string]int64{"up": up2, "down": dn2}[c.dir], c.dir, map[string]int64{"up": up1, "down": dn1}[c.dir], c.got, c.want), map[string]any{"round": r, "reported": c.got, "metered": c.want})
+			}
+		}
+		res.Count(fmt.Sprintf("orphan %d", r), true)
+	}
 }
